@@ -62,6 +62,10 @@ CLAIMED = {
          "Lowered generator templates with type-correct but hostile arguments, stores and protocol parameters, and random well-formed IR trees a client could send, are pushed through find_params, find_queries, is_constant, apply_args, apply_fees, Node::apply(compiler), reduce, apply_inputs, compile, inputs::resolve and resolve_tx in worker subprocesses; every call must return Ok or Err. Held = no panic, abort or reproducible overrun on any driven call.",
          "arguments are type-correct in the property's sense; stores follow the trait contract and hold amounts below 2^80 in magnitude; nothing is asserted about which of Ok/Err comes back",
          "DESIGN.md section 3 C14"),
+ "C19": ("exploration", "runtime monitor: span-inside-text invariant checked on every diagnostic produced by erroneous inputs, plus rendering through miette's graphical handler",
+         "Grammar expansions, token mutants and semantic mutants (multi-line layouts with multi-byte comments, so that errors fall on every line / column class) are parsed and analysed; every parse error must have start <= end <= len(carried text) on char boundaries and render with a snippet, every analysis error with a real span must lie within the input on char boundaries and, for not-in-scope errors, locate exactly the reported name. Held on every diagnostic observed.",
+         "dummy spans are skipped; the harness' own 'call limit reached' error is not a diagnostic of the code under test",
+         "DESIGN.md section 3 C19"),
  "C20": ("exploration", "runtime monitor: differential oracle between a used and a fresh compiler instance over generated call histories",
          "Histories of 0..4 earlier resolutions (succeeding and failing, with and without min_utxo, 1..6 outputs) are replayed on one compiler instance before a target is resolved; the outcome (bytes, hash, fee / error kind / panic site) must equal that of a fresh identically configured instance. Held on every generated (history, target).",
          "same single-UTxO store for both runs so that hash order cannot differ; latest_tx_body is the only state the instance carries",
